@@ -40,7 +40,7 @@ trait Subject: Send + Sync {
 }
 
 /// queries of the ops: 0 knot, 1 just left of that knot, 2 other interval, 3 out of range,
-/// 4 batch [left of knot, knot, first interval]
+/// 4 batch [left of knot, knot, first interval], 6 another value out of range
 fn q1(x: &[f64]) -> [f64; 5] {
     let k = x.len() / 2;
     [x[k], x[k - 1] + 0.75 * (x[k] - x[k - 1]), x[x.len() - 2] + 0.4 * (x[x.len() - 1] - x[x.len() - 2]), x[x.len() - 1] + 100.0, x[0] + 0.2 * (x[1] - x[0])]
@@ -57,6 +57,7 @@ macro_rules! subject_1d {
                 let q = q1(&self.x);
                 match op {
                     0..=3 => self.ip.interp(q[op]).map(|a| bits(a.iter())).map_err(|e| e.to_string()),
+                    6 => self.ip.interp(self.x[0] - 41.3).map(|a| bits(a.iter())).map_err(|e| e.to_string()),
                     5 => {
                         // a long batch (1100 in-range elements): code that treats long batches specially
                         let n = self.x.len();
@@ -81,6 +82,7 @@ impl Subject for SBil {
         let ys = [AY[1], AY[0] + 0.9 * (AY[1] - AY[0]), AY[1] + 0.3 * (AY[2] - AY[1]), AY[1], AY[2]];
         match op {
             0..=3 => self.ip.interp(q[op], ys[op]).map(|a| bits(a.iter())).map_err(|e| e.to_string()),
+            6 => self.ip.interp(AX[0] - 41.3, ys[0]).map(|a| bits(a.iter())).map_err(|e| e.to_string()),
             _ => self
                 .ip
                 .interp_array(&Array1::from(vec![q[1], q[0], q[4]]), &Array1::from(vec![ys[1], ys[0], ys[2]]))
@@ -154,10 +156,12 @@ fn main() {
     std::env::set_var("SHUTTLE_SILENCE_WARNINGS", "1");
     nimc::driver::install_panic_hook();
     assert!(verif_hooks::install_sched_point(sched_hook));
+    // accesses to std::cell types of the subject are scheduling points as well (verif_std::cell)
+    assert!(verif_std::cell::install_point(sched_hook));
     let budget = if quick { 4.0e5 } else { 2.0e8 };
     // The number of scheduling points of an op (hooks; atomics are added by the scheduler itself)
     // must be measured inside an execution, because the subject's primitives are shuttle's.
-    let pts: Arc<Mutex<Vec<Vec<u64>>>> = Arc::new(Mutex::new(vec![vec![0; 6]; KINDS.len()]));
+    let pts: Arc<Mutex<Vec<Vec<u64>>>> = Arc::new(Mutex::new(vec![vec![0; 7]; KINDS.len()]));
     {
         let pts = pts.clone();
         shuttle::check_dfs(
@@ -165,7 +169,7 @@ fn main() {
                 COUNTING.with(|c| c.set(true));
                 for kind in 0..KINDS.len() {
                     let w = build(kind);
-                    for op in 0..6 {
+                    for op in 0..7 {
                         if op == 5 && kind == 2 {
                             continue;
                         }
@@ -185,6 +189,13 @@ fn main() {
         let pairs: Vec<(usize, usize)> = if kind == 3 { vec![(1, 0), (0, 2), (4, 1)] } else { (0..5).flat_map(|a| (0..5).map(move |b| (a, b))).collect() };
         for (a, b) in pairs {
             programs.push(Program { kind, threads: vec![vec![a], vec![b]] });
+        }
+        if kind != 2 {
+            // two different values out of range, one of them asked twice
+            programs.push(Program { kind, threads: vec![vec![3, 3], vec![6]] });
+            programs.push(Program { kind, threads: vec![vec![6, 6], vec![3]] });
+            programs.push(Program { kind, threads: vec![vec![3], vec![6]] });
+            programs.push(Program { kind, threads: vec![vec![6], vec![1]] });
         }
         if kind == 0 || kind == 4 {
             // a 1100-element batch next to an out-of-range query and next to an ordinary query
@@ -241,7 +252,7 @@ fn main() {
             }
         }
         // sequential answers, computed inside an execution
-        let canon: Arc<Mutex<Vec<Option<Out>>>> = Arc::new(Mutex::new(vec![None; 6]));
+        let canon: Arc<Mutex<Vec<Option<Out>>>> = Arc::new(Mutex::new(vec![None; 7]));
         {
             let canon = canon.clone();
             let kind = p.kind;
